@@ -41,6 +41,12 @@ import (
 // round must be what the acknowledged calls leave (calls on different pairs commute). Aimed at deletes that are
 // non-atomic read-modify-write cycles of the whole registry.
 //
+// dup part (c08_dup.go; plain and race build): 2-4 goroutines send the identical subscribe / delete of ONE peer for ONE pair at
+// the same time (over the wire and through the manager API) on a pre-filled registry: exactly one grant / one removal.
+//
+// Function announcement (seq, conc, dup): how a data function of a server feature is announced with AddFunctionType
+// (read+write, read-only, write-only, neither, not at all, announced late) is drawn per case; the fan-out never depends on it.
+//
 // early part (regkit.go, shared with C09): a peer that subscribes [0]/0 -> local NodeManagement before its own detailed
 // discovery reply was processed; life cycle of that entry (duplicate, list, fan-out, delete with and without device
 // part, second delete, fresh peers / other peers leaving, own disconnect and reconnect).
@@ -56,13 +62,19 @@ func init() {
 			"a re-announcement without reconnect (detailed discovery reply once more, or partial notify lastStateChange=added for the known entity [0], [1] or [1,1]; same addresses, roles and types, in every second one new description texts: registry with ids, events and fan-out unchanged; followed by the same request again - refused -, or the delete of a held pair - granted -, and a fan-out probe), " +
 			"a fifth of the requests and a third of the deletes aimed at a pair that another peer holds with a FOREIGN device part in the client and/or server address (client address: the device of another connected peer - preferably the holder of the same-numbered pair -, of the mute peer, of the local device, or of nobody; " +
 			"server address: the device of a peer or of nobody), each followed by a SetData on the addressed server feature whose fan-out is judged, " +
-			"SetData (with a freshly built object, or - 3 of 5 - with an object the application holds already: the one DataCopy returned or the one it passed to the previous SetData of that function, one list element / pointed-to scalar changed IN PLACE; list values carry the identifiers {1,2} or {1,3}), UpdateData, remote write (a quarter of them aimed at the feature with the same number in the parent / sub / sibling entity of a subscribed one), registry read}; non-trivial if it saw at least one grant, one rejection and one fan-out to >= 1 subscriber that was judged. " +
+			"SetData (with a freshly built object, or - 3 of 5 - with an object the application holds already: the one DataCopy returned or the one it passed to the previous SetData of that function, one list element / pointed-to scalar changed IN PLACE; list values carry the identifiers {1,2} or {1,3}), UpdateData, remote write (a quarter of them aimed at the feature with the same number in the parent / sub / sibling entity of a subscribed one), registry read}; " +
+			"every data function of the server features S0-S3 (two per DeviceClassification feature, the list of Identification) is announced per case as read+write (4 of 10), read-only, write-only (2), neither, or not at all (2: AddFunctionType never called; a fifth of the changes of such a function announce it only then, with subscribers present) - the fan-out does not depend on it; remote writes prefer a function announced as writable; non-trivial if it saw at least one grant, one rejection and one fan-out to >= 1 subscriber that was judged. " +
 			"Replica oracle: every subscribed remote feature keeps a copy of each function, fed ONLY by the notifications written to its connection and folded with the harness's own restricted-exchange rules on the decoded filters (no filter = replace; delete filter first; partial filter = merge by identifier / into the selected item); after every change the copy must equal the harness's model of the function's data (the operations folded with the same rules). " +
 			"concurrent case = 3 peer goroutines x 3-4 subscribe/unsubscribe calls and one publisher goroutine per server feature (1-3 of [1]/1, [1,1]/1, [2]/1; mute first subscriber in every second case; in every third case two fifths of the calls carry a foreign device part, " +
 			"mostly the device of a fourth, identically numbered bystander peer that is subscribed to everything and silent during the concurrent phase: its entries and ids must be the same afterwards and every publish must reach it), checked with porcupine; non-trivial if at least one publish reached a subscriber and the check returned Ok or Illegal. " +
 			"rmw case (shared with C09, regkit.go) = a registry pre-filled with 50-250 entries of a silent bystander connection on as many server features; 3-4 actor goroutines, each with its own connection and its own 1-2 (client, server feature) pairs, " +
 			"toggle subscribe / unsubscribe (now and then a repeated call) for 6 (thorough 12) rounds of 8-16 calls each; every call's answer must be the one its own pair's history demands (calls on different pairs commute), and at the quiescent point after every round " +
 			"SubscriptionsOnFeature, Subscriptions(peer) with ids, one nodeManagementSubscriptionData read, the bystander's entries and the add/remove events must equal what the acknowledged calls leave; non-trivial if in some round a call overlapped an acknowledged delete of another connection (call/return stamps). " +
+			"dup case (c08_dup.go) = requests of ONE peer for ONE AND THE SAME pair that overlap: 1-16 local entities x 12 server features, a registry pre-filled with 0-200 entries of 1-2 bystander connections and of the actor (same client on other servers, other clients and the bystanders' same-numbered clients on the duelled server); " +
+			"12 (thorough 32; race build 8 / 16) rounds in which 2-4 goroutines, released together, send the identical subscribe or the identical delete (a sixth of the rounds: a mix; a quarter: spread over two neighbouring pairs) for the actor's pair X or Y, each over the wire (marshalled call on the actor's connection; a fifth without the device part in the client address) or through SubscriptionManager.AddSubscription / RemoveSubscription " +
+			"(the manager calls of a round share a device object whose answers - Ski, Address, FeatureByAddress, Entity - are bounded rendezvous points: they align the callers in front of the manager's lock and let a second caller into a check that is not one critical section with its modification; a rendezvous that finds no partner expires once per round); " +
+			"judged per round: one result per wire call; an absent pair is granted exactly once and a present one never, a present pair is removed exactly once and an absent one never, the calls and the registry afterwards linearize against a register model per pair (porcupine); add/remove events = granted requests / successful deletes; Subscriptions(actor) = its other entries + the present pairs, each once, distinct ids; the bystanders' entries and ids untouched; " +
+			"one SetData on the duelled server feature (function announced as drawn above) = exactly one notification per entry on its own connection; non-trivial if the case had a subscribe duel for an absent pair and a delete duel for a present pair whose calls overlapped (call/return stamps). " +
 			"early case = two announced peers and one that subscribes [0]/0 to the local NodeManagement BEFORE its own discovery reply; 3-6 steps of {discovery reply, the same request again, delete, a fresh peer connects and leaves, an announced peer leaves, registry read}, each followed by a change of the local NodeManagement data, then the subscriber's own disconnect / reconnect; non-trivial if a fan-out was judged. " +
 			"distinct = hash of the operation shapes (kinds, features, outcomes) without payload values.",
 		Assumptions: []string{
@@ -77,6 +89,8 @@ func init() {
 			"registry reads over the wire that stay unanswered are counted, not judged (that is C01's subject)",
 			"a SetData call whose object has the content the feature reports already is not a 'change' (never generated: every call carries a new token); a SetData call with an object that aliases the stored data and was modified in place IS a change of the feature's data through SetData",
 			"replica oracle: FeatureLocal.UpdateData without a partial selector announces the complete data under an empty partial filter, also when its own filters were 'delete' only or absent (DESIGN.md D36 row: outside the given properties); a subscriber copy that diverges after UpdateData(delete) or a filter-less UpdateData that removes identifiers is counted as an observation, not a violation, and re-synchronised",
+			"whether and how the changed function is announced in the feature's possible operations (AddFunctionType read / write flags, or not announced at all) is not a condition of 'a change of a local server feature's data sends one notification ... to each remote feature currently subscribed': every function of the feature's type holds data that SetData / UpdateData change",
+			"dup part: requests of one peer for one pair may overlap - the registry calls are exported API that take the remote device as a parameter, and SHIP delivers the messages buffered during its handshake from another goroutine than its reader; 'granted exactly when ... not subscribed already' and 'fails if it does not exist' then mean: the answers and the registry have an order in which each call is answered by the registry state it meets (linearizability per pair)",
 			"concurrent part: one publisher goroutine per server feature (two overlapping SetData calls on one function may legitimately both notify the later value)",
 			"'each remote feature currently subscribed' includes those whose entry follows that of a peer with a broken connection: the mute peer (SetupRemoteDevice with a nil writer) is not observed itself (no tap, not in the compared registries), only its effect on the others",
 		},
@@ -85,6 +99,8 @@ func init() {
 			{Name: "conc", Cases: func(t rig.Tier) int { return map[rig.Tier]int{rig.Quick: 900, rig.Thorough: 30000}[t] }, Run: c08Conc, Procs: 4, Quiet: 90 * time.Second},
 			{Name: "conc-race", Race: true, Cases: func(t rig.Tier) int { return map[rig.Tier]int{rig.Quick: 240, rig.Thorough: 4800}[t] }, Run: c08Conc, Procs: 4, Quiet: 120 * time.Second},
 			{Name: "conc-rmw", Cases: func(t rig.Tier) int { return map[rig.Tier]int{rig.Quick: 24, rig.Thorough: 600}[t] }, Run: func(c *rig.Ctx) { rkRmwCase(c, c08RegKind) }, Procs: 4, Quiet: 120 * time.Second},
+			{Name: "dup", Cases: func(t rig.Tier) int { return map[rig.Tier]int{rig.Quick: 48, rig.Thorough: 1600}[t] }, Run: c08Dup, Procs: 4, Quiet: 120 * time.Second},
+			{Name: "dup-race", Race: true, Cases: func(t rig.Tier) int { return map[rig.Tier]int{rig.Quick: 8, rig.Thorough: 240}[t] }, Run: c08Dup, Procs: 4, Quiet: 150 * time.Second},
 			{Name: "early", Cases: func(t rig.Tier) int { return map[rig.Tier]int{rig.Quick: 160, rig.Thorough: 4000}[t] }, Run: func(c *rig.Ctx) { rkEarlyCase(c, c08RegKind) }, Procs: 2},
 		},
 	})
@@ -163,7 +179,29 @@ type c08World struct {
 	val     int
 	mute    *rig.Peer // first subscriber of every server feature, its connection cannot send (nil: none)
 	muteErr string
+	ann     map[string]string // "server.function" -> how the function was announced (c08AnnClasses); only filled by newC08WorldVaried
 }
+
+// c08AnnClasses: how a function of a local server feature is announced with AddFunctionType(fn, read, write). The
+// statement speaks of "a change of a local server feature's data": whether and how the changed function is announced in
+// the feature's possible operations is not a condition of the fan-out. "unannounced" = AddFunctionType is never called
+// (the feature holds data for every function of its type all the same).
+var c08AnnClasses = []string{"read+write", "read+write", "read+write", "read+write", "read-only", "write-only", "write-only", "neither", "unannounced", "unannounced"}
+
+func c08Announce(f api.FeatureLocalInterface, fn model.FunctionType, class string) {
+	switch class {
+	case "read+write":
+		f.AddFunctionType(fn, true, true)
+	case "read-only":
+		f.AddFunctionType(fn, true, false)
+	case "write-only":
+		f.AddFunctionType(fn, false, true)
+	case "neither":
+		f.AddFunctionType(fn, false, false)
+	}
+}
+
+func c08Writable(class string) bool { return class == "read+write" || class == "write-only" }
 
 // c08Twins: server features that carry the same feature number in the parent, sub or sibling entity.
 var c08Twins = map[string][]string{"S0": {"S3", "S3", "S1"}, "S3": {"S0", "S0", "S1"}, "S1": {"S0", "S3"}}
@@ -174,9 +212,17 @@ func (cw *c08World) dropMute() {
 	}
 }
 
-func newC08World(c *rig.Ctx) *c08World {
+// newC08World: every data function is announced the way applications usually do (readable; UserData and the list writable).
+// C09 builds on this world too.
+func newC08World(c *rig.Ctx) *c08World { return newC08WorldOpt(c, false) }
+
+// newC08WorldVaried draws, per (server feature, function), how the function is announced (c08AnnClasses, from c.Rand) and
+// gives S1 the second function of its type as well.
+func newC08WorldVaried(c *rig.Ctx) *c08World { return newC08WorldOpt(c, true) }
+
+func newC08WorldOpt(c *rig.Ctx, varied bool) *c08World {
 	cw := &c08World{w: rig.NewWorld(c.Tag()), locals: map[string]*rkLocalFeat{}, byShort: map[string]*rkLocalFeat{}, pfeat: map[string]rkPeerFeat{},
-		pShort: map[string]rkPeerFeat{}, subs: map[string]c08Entry{}, holder: map[string]c08Entry{}}
+		pShort: map[string]rkPeerFeat{}, subs: map[string]c08Entry{}, holder: map[string]c08Entry{}, ann: map[string]string{}}
 	w := cw.w
 	e1 := w.AddEntity(model.EntityTypeTypeCEM, []uint{1}, 4*time.Second)
 	e2 := w.AddEntity(model.EntityTypeTypeCEM, []uint{2}, 4*time.Second)
@@ -186,23 +232,36 @@ func newC08World(c *rig.Ctx) *c08World {
 		cw.locals[name] = l
 		a := f.Address()
 		cw.byShort[rkEnt(a.Entity)+"/"+fmt.Sprint(uint(*a.Feature))] = l
+		if varied && name != "NM" { // the library announces the functions of NodeManagement itself
+			for _, fn := range fns {
+				class := c08AnnClasses[c.Rand.Intn(len(c08AnnClasses))]
+				cw.ann[name+"."+string(fn)] = class
+				c08Announce(f, fn, class)
+			}
+		}
 	}
 	s0 := e1.GetOrAddFeature(model.FeatureTypeTypeDeviceClassification, model.RoleTypeServer)
-	s0.AddFunctionType(model.FunctionTypeDeviceClassificationUserData, true, true)
-	s0.AddFunctionType(model.FunctionTypeDeviceClassificationManufacturerData, true, false)
-	add("S0", s0, model.FunctionTypeDeviceClassificationUserData, model.FunctionTypeDeviceClassificationManufacturerData)
 	s2 := e1.GetOrAddFeature(model.FeatureTypeTypeIdentification, model.RoleTypeServer)
-	s2.AddFunctionType(model.FunctionTypeIdentificationListData, true, true)
-	add("S2", s2, model.FunctionTypeIdentificationListData)
 	lc := e1.GetOrAddFeature(model.FeatureTypeTypeMeasurement, model.RoleTypeClient)
-	add("LC", lc)
 	s1 := e2.GetOrAddFeature(model.FeatureTypeTypeDeviceClassification, model.RoleTypeServer)
-	s1.AddFunctionType(model.FunctionTypeDeviceClassificationUserData, true, true)
-	add("S1", s1, model.FunctionTypeDeviceClassificationUserData)
 	// the sub-entity [1,1] restarts the feature numbering: S3 is [1,1]/1 as S0 is [1]/1
 	s3 := e11.GetOrAddFeature(model.FeatureTypeTypeDeviceClassification, model.RoleTypeServer)
-	s3.AddFunctionType(model.FunctionTypeDeviceClassificationUserData, true, true)
-	s3.AddFunctionType(model.FunctionTypeDeviceClassificationManufacturerData, true, false)
+	if !varied {
+		s0.AddFunctionType(model.FunctionTypeDeviceClassificationUserData, true, true)
+		s0.AddFunctionType(model.FunctionTypeDeviceClassificationManufacturerData, true, false)
+		s2.AddFunctionType(model.FunctionTypeIdentificationListData, true, true)
+		s1.AddFunctionType(model.FunctionTypeDeviceClassificationUserData, true, true)
+		s3.AddFunctionType(model.FunctionTypeDeviceClassificationUserData, true, true)
+		s3.AddFunctionType(model.FunctionTypeDeviceClassificationManufacturerData, true, false)
+	}
+	add("S0", s0, model.FunctionTypeDeviceClassificationUserData, model.FunctionTypeDeviceClassificationManufacturerData)
+	add("S2", s2, model.FunctionTypeIdentificationListData)
+	add("LC", lc)
+	if varied {
+		add("S1", s1, model.FunctionTypeDeviceClassificationUserData, model.FunctionTypeDeviceClassificationManufacturerData)
+	} else {
+		add("S1", s1, model.FunctionTypeDeviceClassificationUserData)
+	}
 	add("S3", s3, model.FunctionTypeDeviceClassificationUserData, model.FunctionTypeDeviceClassificationManufacturerData)
 	add("NM", w.Local.NodeManagement(), model.FunctionTypeNodeManagementUseCaseData)
 	for _, f := range c08PeerFeats {
@@ -464,7 +523,7 @@ func (cw *c08World) entriesOnServer(srv string) []c08Entry {
 // sequential part
 
 func c08Seq(c *rig.Ctx) {
-	cw := newC08World(c)
+	cw := newC08WorldVaried(c)
 	w := cw.w
 	defer w.Close()
 	defer cw.dropMute()
@@ -490,6 +549,15 @@ func c08Seq(c *rig.Ctx) {
 	if cw.mute != nil {
 		hist = append(hist, "peer 'mute0' (its connection has no write handler) subscribed to S0, S1, S2, S3 and NM before everybody else")
 		c.Count("cases_with_a_mute_first_subscriber", 1)
+	}
+
+	{
+		var as []string
+		for _, k := range rkSortedKeys(cw.ann) {
+			as = append(as, k+"="+cw.ann[k])
+			c.Count("functions_announced_as:"+cw.ann[k], 1)
+		}
+		hist = append(hist, "functions of the local server features announced with AddFunctionType as: "+strings.Join(as, ", "))
 	}
 
 	takeAll := func() [][]model.DatagramType {
@@ -1214,8 +1282,31 @@ func c08Seq(c *rig.Ctx) {
 			if srv == "NM" && mode == 2 {
 				mode = 0
 			}
-			if mode == 2 && fn == model.FunctionTypeDeviceClassificationManufacturerData {
-				fn = model.FunctionTypeDeviceClassificationUserData // the read-only function is changed locally only
+			if mode == 2 && srv != "NM" && !c08Writable(cw.ann[srv+"."+string(fn)]) && r.Intn(3) > 0 {
+				// a remote write needs a function announced as writable: mostly take one (the others are C03's subject; here the
+				// oracle follows what the stack does with the write)
+				for _, g := range l.Fns {
+					if c08Writable(cw.ann[srv+"."+string(g)]) {
+						fn = g
+					}
+				}
+			}
+			if srv != "NM" && cw.ann[srv+"."+string(fn)] == "unannounced" && r.Intn(5) == 0 {
+				// the application announces the function only now, while remote features are subscribed already
+				class := c08AnnClasses[r.Intn(8)]
+				takeAll()
+				c08Announce(l.F, fn, class)
+				cw.ann[srv+"."+string(fn)] = class
+				log("   AddFunctionType %s %s: announced as %s only now (%d subscribers)", srv, fn, class, len(cw.entriesOnServer(srv)))
+				n := 0
+				for _, o := range takeAll() {
+					n += len(o)
+				}
+				c.Count(fmt.Sprintf("late_announcement_of_a_function:%s:datagrams_sent=%d", class, n), 1)
+			}
+			annClass := cw.ann[srv+"."+string(fn)]
+			if srv == "NM" {
+				annClass = "announced-by-the-library"
 			}
 			before := rig.CanonAny(l.F.DataCopy(fn))
 			takeAll()
@@ -1325,12 +1416,18 @@ func c08Seq(c *rig.Ctx) {
 			}
 			c.Events(1)
 			judgeFanout(what, srv, fn, v, changed, outs, newExp)
+			if changed {
+				c.Count("datachange_of_a_function_announced_as:"+annClass, 1)
+				if n := len(cw.entriesOnServer(srv)); n > 0 {
+					c.Count("fanouts_to_subscribers_judged_for_a_function_announced_as:"+annClass, 1)
+				}
+			}
 			if evs := w.Core.Take(); rig.CountEv(evs, api.EventTypeSubscriptionChange, api.ElementChangeAdd)+rig.CountEv(evs, api.EventTypeSubscriptionChange, api.ElementChangeRemove) > 0 {
 				fail(what+"/event-unexpected", "%s published subscription change events", what)
 			}
 			judgeRegistry(what)
 			c.Count("datachange:"+what, 1)
-			shape = append(shape, fmt.Sprintf("%s:%s:%s:w%d", what, srv, fn, len(cw.entriesOnServer(srv))))
+			shape = append(shape, fmt.Sprintf("%s:%s:%s:%s:w%d", what, srv, fn, annClass, len(cw.entriesOnServer(srv))))
 
 		default: // ---------------- registry read over the wire
 			cl := model.CmdClassifierTypeCall
@@ -1529,8 +1626,13 @@ func c08Conc(c *rig.Ctx) {
 		e11.GetOrAddFeature(model.FeatureTypeTypeDeviceClassification, model.RoleTypeServer), e2.GetOrAddFeature(model.FeatureTypeTypeDeviceClassification, model.RoleTypeServer)}
 	nSrv := 1 + r.Intn(3)
 	srvF = srvF[:nSrv]
-	for _, s := range srvF {
-		s.AddFunctionType(fn, true, true)
+	annShape := ""
+	for si, s := range srvF {
+		// how the published function is announced is no condition of the fan-out (see c08AnnClasses)
+		class := c08AnnClasses[r.Intn(len(c08AnnClasses))]
+		c08Announce(s, fn, class)
+		c.Count("conc_published_function_announced_as:"+class, 1)
+		annShape += fmt.Sprint(si, class)
 	}
 	clients := []rkPeerFeat{c08PeerFeats[1], c08PeerFeats[2]} // a [1]/1 and b [1,1]/1
 	for i := 0; i < 3; i++ {
@@ -1850,7 +1952,7 @@ func c08Conc(c *rig.Ctx) {
 			sh = append(sh, fmt.Sprintf("%d:%s:%d:%d:%v:%v", pi, pl.op, pl.cli, pl.srv, pl.fc != "", pl.fs != ""))
 		}
 	}
-	c.Shape(rkHash(append(sh, fmt.Sprint(nSrv, nPub, len(recs), mute != nil))...))
+	c.Shape(rkHash(append(sh, fmt.Sprint(nSrv, nPub, len(recs), mute != nil), annShape)...))
 	c.NonTrivial(decided && reached > 0)
 	c.Count("conc_notifies_attributed", int64(reached))
 	if nSrv >= 2 {
